@@ -92,7 +92,12 @@ def prod(a, axis=None, dtype=None, keepdims=False, split_every=None, out=None):
 def chunk_min(x, axis=None, keepdims=None):
     """Version of np.min which ignores size 0 arrays"""
     if x.size == 0:
-        return array_safe([], x, ndmin=x.ndim, dtype=x.dtype)
+        # Only an empty *reduced* axis has no minimum; a block that is empty
+        # along another axis reduces like any other and keeps its shape.
+        try:
+            return np.min(x, axis=axis, keepdims=keepdims)
+        except ValueError:
+            return array_safe([], x, ndmin=x.ndim, dtype=x.dtype)
     else:
         return np.min(x, axis=axis, keepdims=keepdims)
 
@@ -100,7 +105,12 @@ def chunk_min(x, axis=None, keepdims=None):
 def chunk_max(x, axis=None, keepdims=None):
     """Version of np.max which ignores size 0 arrays"""
     if x.size == 0:
-        return array_safe([], x, ndmin=x.ndim, dtype=x.dtype)
+        # Only an empty *reduced* axis has no maximum; a block that is empty
+        # along another axis reduces like any other and keeps its shape.
+        try:
+            return np.max(x, axis=axis, keepdims=keepdims)
+        except ValueError:
+            return array_safe([], x, ndmin=x.ndim, dtype=x.dtype)
     else:
         return np.max(x, axis=axis, keepdims=keepdims)
 
